@@ -155,6 +155,29 @@ func ruleForceDurationScan(p *Prog, l *Ledger, tier string) {
 				continue
 			}
 			for _, side := range []ssa.Value{bo.X, bo.Y} {
+				// a cached duration refreshed after the cut: a merge of Duration() calls, where every
+				// operand arriving from a path through the cut is evaluated after it
+				if ph, isPhi := side.(*ssa.Phi); isPhi {
+					allDur, okAll := true, true
+					for i, e := range ph.Edges {
+						ec, isCall := e.(*ssa.Call)
+						if !isCall || ec.Call.StaticCallee() == nil || FnName(ec.Call.StaticCallee()) != "Subtitles.Duration" {
+							allDur = false
+							break
+						}
+						pred := ph.Block().Preds[i]
+						throughCut := after[pred] || pred == cutSite.Block()
+						evaluatedAfter := after[ec.Block()] || (ec.Block() == cutSite.Block() && instrIndex(cutSite) < instrIndex(ec))
+						if throughCut && !evaluatedAfter {
+							okAll = false
+							stale = p.Pos(ec.Pos())
+						}
+					}
+					if allDur && okAll {
+						fresh++
+					}
+					continue
+				}
 				c, ok := side.(*ssa.Call)
 				if !ok {
 					continue
